@@ -1,20 +1,45 @@
 ----------------------------- MODULE Gen_Logging -----------------------------
 (* behaviour emission for spec -> code replay: every state carries its history *)
 EXTENDS Logging, Json
-CONSTANT Depth
+CONSTANTS Depth,
+          Acts,        \* names of the actions explored by this configuration
+          InitLevels   \* GSpecBoot: thresholds of the uniform initial subscription tables
 VARIABLE hist
 
-Obs == [level |-> [m \in Mods |-> [c \in Conns |-> level'[<<m, c>>]]], last |-> last']
+Obs == [level |-> [m \in Mods |-> [c \in Conns |-> level'[<<m, c>>]]], last |-> last',
+        day |-> day', dated |-> dated']
 
 GInit == RInit /\ hist = <<>>
+(* the local sinks depend on the configuration and not on the history: start from any configuration and any  *)
+(* uniform subscription table (all reachable), told to the replay by a leading pseudo step "boot"             *)
+GInitBoot ==
+    /\ cfg \in Configs
+    /\ level \in {[mc \in Mods \X Conns |-> v] : v \in InitLevels}
+    /\ alive = Conns /\ last = None /\ day = 1 /\ dated = [f \in Files |-> {}]
+    /\ hist = <<[act |-> "boot", cfg |-> cfg,
+                 exp |-> [level |-> [m \in Mods |-> [c \in Conns |-> level[<<m, c>>]]], last |-> last,
+                          day |-> day, dated |-> dated]]>>
 GNext ==
-  \/ \E c \in Conns, tg \in Targets, lv \in ReqLevels :
+  \/ /\ "logging" \in Acts
+     /\ \E c \in Conns, tg \in Targets, lv \in ReqLevels :
         LoggingReq(c, tg, lv) /\ hist' = Append(hist, [act |-> "logging", conn |-> c, target |-> tg, lvl |-> lv, exp |-> Obs])
-  \/ \E m \in Mods, lv \in EmitLevels :
+  \/ /\ "emit" \in Acts
+     /\ \E m \in Mods, lv \in EmitLevels :
         Emit(m, lv) /\ hist' = Append(hist, [act |-> "emit", mod |-> m, lvl |-> lv, exp |-> Obs])
-  \/ \E c \in Conns : Ident(c) /\ hist' = Append(hist, [act |-> "ident", conn |-> c, exp |-> Obs])
-  \/ \E c \in Conns : Disconnect(c) /\ hist' = Append(hist, [act |-> "disconnect", conn |-> c, exp |-> Obs])
+  \/ /\ "mainemit" \in Acts
+     /\ \E lv \in EmitLevels :
+        MainEmit(lv) /\ hist' = Append(hist, [act |-> "mainemit", lvl |-> lv, exp |-> Obs])
+  \/ /\ "comlog" \in Acts
+     /\ \E m \in ComMods :
+        ComLog(m) /\ hist' = Append(hist, [act |-> "comlog", mod |-> m, exp |-> Obs])
+  \/ "nextday" \in Acts /\ NextDay /\ hist' = Append(hist, [act |-> "nextday", exp |-> Obs])
+  \/ "reinit" \in Acts /\ ReInit /\ hist' = Append(hist, [act |-> "reinit", exp |-> Obs])
+  \/ /\ "ident" \in Acts
+     /\ \E c \in Conns : Ident(c) /\ hist' = Append(hist, [act |-> "ident", conn |-> c, exp |-> Obs])
+  \/ /\ "disconnect" \in Acts
+     /\ \E c \in Conns : Disconnect(c) /\ hist' = Append(hist, [act |-> "disconnect", conn |-> c, exp |-> Obs])
 GSpec == GInit /\ [][GNext]_<<rvars, hist>>
+GSpecBoot == GInitBoot /\ [][GNext]_<<rvars, hist>>
 
 Bound == TLCGet("level") <= Depth
 Emit1 == (TLCGet("level") = Depth + 1) => PrintT(<<"BEH", ToJson(hist)>>)
